@@ -2,7 +2,7 @@
    "Reaches the wire" is formalised at the library's linearisation point, the hand-over to the packet
    buffer (the harness flushes before delivering a stall notice so both orders coincide). *)
 From Coq Require Import List NArith Bool.
-From LB Require Import Tables Framing NodeFlow NodeFlowProofs.
+From LB Require Import Tables Framing NodeFlow NodeFlowProofs NoStrandProofs.
 Import ListNotations.
 Local Open Scope N_scope.
 
@@ -38,13 +38,24 @@ Theorem C04_retained_in_order : forall es so now0, forallb (fun e => negb (is_re
 Proof. exact (fun es so now0 H => tab_run_fifo es [] so now0 H). Qed.
 Print Assumptions C04_retained_in_order.
 
-(* when a stall is lifted every registered waiter is retried, and a retry drains the node's held queue
-   until it is empty, blocked by another stall, or limited by the response budget *)
-Theorem C04_resume_retry_partial : forall t a now,
-  let t' := fst (try_queued t a now) in
-  n_held (get t' a) = [] \/ ~ unblocked t' a \/ head_blocked_by_budget t' a.
-Proof. exact try_queued_post. Qed.
-Print Assumptions C04_resume_retry_partial.
+(* resume: after any history (nested stalls in any order, repeated notices, unstall without stall,
+   several nodes; constant clock, i.e. budget freed by answers only), a node whose stalls have all been
+   lifted holds a message only if the response budget of C03 does not admit its oldest held message:
+   everything else submitted meanwhile has been handed to the transmit buffer (in order, once, by
+   C04_retained_in_order) *)
+Theorem C04_resume : forall es so now0, forallb no_clock es = true ->
+  let '(t, _, _, _, _) := tab_run [] so now0 es in
+  forall a, n_held (get t a) <> [] -> unblocked t a -> head_blocked_by_budget t a.
+Proof. exact no_strand_const_clock. Qed.
+Print Assumptions C04_resume.
+
+(* the invariant behind it: a node with held traffic that is not limited by its budget is registered
+   in the waiter list of a stalled ancestor-or-self, whatever the order in which stalls are set and lifted *)
+Theorem C04_waiters : forall es so now0, forallb no_clock es = true ->
+  let '(t, _, _, _, _) := tab_run [] so now0 es in
+  forall a, n_held (get t a) <> [] -> head_blocked_by_budget t a \/ registered t a.
+Proof. exact (fun es so now0 H => tab_run_ns es [] so now0 H NS_nil (CT_nil now0)). Qed.
+Print Assumptions C04_waiters.
 
 (* non-vacuity: node [1] stalls, traffic to [1;2] is held while [2] is served, and released on unstall *)
 Example C04_nonvacuous :
